@@ -749,6 +749,15 @@ def d3_table(ctx):
         return lambda ctx, site: (True, why)
 
     def r02_6(ctx, site):
+        # a Local symbol names a slot of the frame of the function being compiled only if name lookup never reaches the
+        # context of an enclosing function (R09.3)
+        from framework import Report
+        from rules import c09
+        tmp = Report('tmp', 'quick')
+        c09.check_visibility(ctx, tmp, 'R09.3')
+        badv = [o for o in tmp.obs if not o['ok']]
+        if badv:
+            return False, 'name lookup consults more than the current and the global context (R09.3): a slot number of an enclosing function is used in the inner frame'
         ok, why = _csa_ok(ctx, ('O8', 'O8-scope', 'R02.6'))
         return ok, why or 'operand indices come from add_constant / the symbol table (R02.6, O8)'
 
